@@ -8,7 +8,9 @@ World scenarios (registry + weak sets + activations; C02, C04)
   scenario world
   model <script>                         new Model whose `random` follows the draw script (`-` = empty)
   create m ty h x                        Agent subclass `ty` in model m; h=1: the program keeps a reference
-  createn m ty h n s:<x> | l:<x1,..,xn>  Agent.create_agents(m, n, x)  (scalar / per-agent argument)
+  createn m ty h n <arg> [<arg>]         Agent.create_agents(m, n, x[, y]); <arg> = s:<v> a single object | l:<v1,..,vk>
+                                         a sequence of any length (split over the agents iff k = n)
+  setagents m                            model.agents = […]  (rejected: err Attr)
   remove a | removeall m | unhold a
   shuffle <tgt> | sort <tgt> asc|desc    in place
   mkset m a b c …                        AgentSet([...], random=model_m.random)
@@ -18,7 +20,12 @@ World scenarios (registry + weak sets + activations; C02, C04)
   <tgt> = all:m | type:m:ty | set:k
 Every answer is `ok <result> || <dump of all registries, sets and live agents>`.
 
-AgentSet scenarios (C03): see `asetLine`.
+AgentSet scenarios (C03): see `asetLine`.  Besides the methods `AgentSet` defines itself, the inherited mixin methods:
+  setop or|and|sub|xor|rsub s <other>    a | b, a & b, a - b, a ^ b, [..] - a   (new set)
+  isetop or|and|sub|xor s <other>        a |= b, …                              (in place)
+  cmp le|lt|ge|gt|eq|ne s t | disjoint s <other> | pop s | clear s | index s a [start [stop]] | count s a | reversed s
+  <other> = s:<k> | l:<ids> | x          (x: not iterable → TypeError; glue answered by the driver)
+  kill a                                 agent.remove() and the program drops its reference: the agent dies
 -/
 open Mesa Mesa.Agents
 
@@ -68,6 +75,22 @@ def dumpWorld (w : World) : String :=
   let live := (List.range w.info.length).filter (alive w)
   " | ".intercalate (ms ++ ss ++ [s!"live={joinNat "," live}"])
 
+def fmtVal : Val → String
+  | .int v => toString v
+  | .seq l => "[" ++ ".".intercalate (l.map toString) ++ "]"
+
+/-- `a:uid:payload` of the `n` agents created from serial `a0` on -/
+def fmtNew (w : World) (a0 n : Nat) : String :=
+  ",".intercalate ((List.range' a0 n).map fun a =>
+    s!"{a}:{uidOf w a}:{"/".intercalate (((w.info[a]?.map (·.x)).getD []).map fmtVal)}")
+
+/-- an argument of `create_agents`: `s:<v>` a single object, `l:<v1,…>` a list / tuple / ndarray of any length -/
+def parseArg (s : String) : Option Arg :=
+  match s.splitOn ":" with
+  | ["s", v] => v.toInt?.map .scalar
+  | ["l", vs] => (parseInts vs).map .seq
+  | _ => none
+
 def fmtLog (l : List (Aid × Nat)) : String := ",".intercalate (l.map fun (a, x) => s!"{a}@{x}")
 
 structure WSt where
@@ -104,28 +127,23 @@ def worldLine (st : WSt) (ws : List String) : WSt × String :=
     match m.toNat?, ty.toNat?, parseBool h, x.toInt? with
     | some m, some ty, some h, some x =>
       if m < w.regs.length then
-        let w' := createAgent w m ty h x
-        ({ st with w := w' }, okW w' s!"new={w.info.length}:{uidOf w' w.info.length}:{x}")
+        let w' := createAgent w m ty h [.int x]
+        ({ st with w := w' }, okW w' s!"new={fmtNew w' w.info.length 1}")
       else bad
     | _, _, _, _ => bad
-  | ["createn", m, ty, h, n, xs] =>
-    match m.toNat?, ty.toNat?, parseBool h, n.toNat? with
-    | some m, some ty, some h, some n =>
-      let xl : Option (List Int) :=
-        match xs.splitOn ":" with
-        | ["s", v] => v.toInt?.map (List.replicate n)
-        | ["l", vs] => match parseInts vs with | some l => if l.length = n then some l else none | none => none
-        | _ => none
-      match xl with
-      | some xl =>
-        if m < w.regs.length then
-          let w' := createN w m ty h xl
-          let news := (List.range' w.info.length n).map fun a =>
-            s!"{a}:{uidOf w' a}:{(w'.info[a]?.map (·.x)).getD 0}"
-          ({ st with w := w' }, okW w' s!"new={",".intercalate news}")
-        else bad
-      | none => bad
-    | _, _, _, _ => bad
+  | "createn" :: m :: ty :: h :: n :: args =>
+    match m.toNat?, ty.toNat?, parseBool h, n.toNat?, args.mapM parseArg with
+    | some m, some ty, some h, some n, some args =>
+      if m < w.regs.length && (args.length = 1 || args.length = 2) then
+        let w' := createAgents w m ty h n args
+        ({ st with w := w' }, okW w' s!"new={fmtNew w' w.info.length n}")
+      else bad
+    | _, _, _, _, _ => bad
+  | ["setagents", m] =>
+    -- `model.agents = […]`: the property's setter raises AttributeError; nothing to change
+    match m.toNat? with
+    | some m => if m < w.regs.length then (st, "err Attr") else bad
+    | none => bad
   | ["remove", a] =>
     match a.toNat? with
     | some a => let w' := removeAgent w a; ({ st with w := w' }, okW w' "")   -- unknown agent: nothing to call
@@ -247,10 +265,25 @@ def fmtOptInt : Option Int → String
   | some v => toString v | none => "None"
 
 open Mesa.ASet in
+/-- right-hand operand of a set operation: `s:<k>` another set, `l:<ids>` a plain iterable of agents,
+    `x` something that is not iterable (`some none`) -/
+def parseOther (nsets npop : Nat) (s : String) (dead : List Nat := []) : Option (Option Other) :=
+  match s.splitOn ":" with
+  | ["x"] => some none
+  | ["s", k] => do
+    let k ← k.toNat?
+    if k < nsets then pure (some (.set k)) else none
+  | ["l", ids] => do
+    let ids ← parseNats ids
+    if ids.all (fun i => i < npop && !dead.contains i) then pure (some (.list ids)) else none
+  | _ => none
+
+open Mesa.ASet in
 def dumpStore (st : Store) : String :=
   let ss := "|".intercalate (st.sets.zipIdx.map fun (l, k) => s!"S{k}={joinNat "," l}")
   let ags := " ".intercalate (st.pop.map fun a =>
-    s!"{a.id}:{fmtOptInt (a.attr 0)}/{fmtOptInt (a.attr 1)}/{fmtOptInt (a.attr 2)}")
+    if st.dead.contains a.id then s!"{a.id}:dead"
+    else s!"{a.id}:{fmtOptInt (a.attr 0)}/{fmtOptInt (a.attr 1)}/{fmtOptInt (a.attr 2)}")
   s!"{ss} || {ags}"
 
 open Mesa.ASet in
@@ -276,7 +309,7 @@ def asetLine (st : Store) (ws : List String) : Store × String :=
   | "mk" :: ids =>
     match ids.mapM (·.toNat?) with
     | some ids =>
-      if ids.all (· < npop) then let (st', k) := mk st ids; (st', okS st' s!"set={k}") else bad
+      if ids.all (fun i => i < npop && !st.dead.contains i) then let (st', k) := mk st ids; (st', okS st' s!"set={k}") else bad
     | none => bad
   | ["select", s, pred, ty, am, inpl] =>
     match s.toNat?, parsePred pred, (if ty = "-" then some none else ty.toNat?.map some), parseBool inpl with
@@ -385,10 +418,90 @@ def asetLine (st : Store) (ws : List String) : Store × String :=
     | some s, some i, some j =>
       if s < nsets then (st, okS st s!"items={joinNat "," (slice st s i j)}") else bad
     | _, _, _ => bad
+  | [kind, op, s, o] =>
+    -- set algebra: `setop or|and|sub|xor|rsub s <other>` (new set), `isetop or|and|sub|xor s <other>` (in place),
+    -- `cmp le|lt|ge|gt|eq|ne s t`
+    if kind = "cmp" then
+      let opP : Option CmpOp :=
+        if op = "le" then some .le else if op = "lt" then some .lt else if op = "ge" then some .ge
+        else if op = "gt" then some .gt else if op = "eq" then some .eq else if op = "ne" then some .ne else none
+      match opP, s.toNat?, o.toNat? with
+      | some op, some s, some t =>
+        if s < nsets && t < nsets then (st, okS st s!"cmp={if cmp st op s t then 1 else 0}") else bad
+      | _, _, _ => bad
+    else if kind = "setop" || kind = "isetop" then
+      let opP : Option SetOp :=
+        if op = "or" then some .or else if op = "and" then some .and else if op = "sub" then some .sub
+        else if op = "xor" then some .xor else if op = "rsub" && kind = "setop" then some .rsub else none
+      match opP, s.toNat? with
+      | some op, some s =>
+        if s < nsets then
+          match parseOther nsets npop o st.dead with
+          | some none => (st, "err Type")          -- a non-iterable operand: TypeError, nothing changes
+          | some (some o) =>
+            if op = .rsub && (match o with | .set _ => true | .list _ => false) then bad
+            else if kind = "setop" then let (st', k) := setop st op s o; (st', okS st' s!"set={k}")
+            else let st' := isetop st op s o; (st', okS st' "self")
+          | none => bad
+        else bad
+      | _, _ => bad
+    else if kind = "index" then
+      -- `index s a start` (stop = None)
+      match op.toNat?, s.toNat?, o.toInt? with
+      | some s, some a, some start =>
+        if s < nsets && a < npop && !st.dead.contains a then
+          match index st s a start none with
+          | .ok i => (st, okS st s!"index={i}")
+          | .error e => (st, fmtErr e)
+        else bad
+      | _, _, _ => bad
+    else bad
+  | ["index", s, a, start, stop] =>
+    match s.toNat?, a.toNat?, start.toInt?, stop.toInt? with
+    | some s, some a, some start, some stop =>
+      if s < nsets && a < npop && !st.dead.contains a then
+        match index st s a start (some stop) with
+        | .ok i => (st, okS st s!"index={i}")
+        | .error e => (st, fmtErr e)
+      else bad
+    | _, _, _, _ => bad
+  | ["disjoint", s, o] =>
+    match s.toNat? with
+    | some s =>
+      if s < nsets then
+        match parseOther nsets npop o st.dead with
+        | some none => (st, "err Type")
+        | some (some o) => (st, okS st s!"disjoint={if isdisjoint st s o then 1 else 0}")
+        | none => bad
+      else bad
+    | none => bad
+  | ["kill", a] =>
+    -- the agent is removed from the model and the program forgets it; an agent the program no longer has
+    -- cannot be named again (bad-op)
+    match a.toNat? with
+    | some a => if a < npop && !st.dead.contains a then let st' := kill st a; (st', okS st' "killed") else bad
+    | none => bad
+  | ["pop", s] =>
+    match s.toNat? with
+    | some s =>
+      if s < nsets then
+        match pop st s with
+        | .ok (st', a) => (st', okS st' s!"pop={a}")
+        | .error e => (st, fmtErr e)
+      else bad
+    | none => bad
+  | ["clear", s] =>
+    match s.toNat? with
+    | some s => if s < nsets then let st' := clear st s; (st', okS st' "cleared") else bad
+    | none => bad
+  | ["reversed", s] =>
+    match s.toNat? with
+    | some s => if s < nsets then (st, okS st s!"items={joinNat "," (reversed st s)}") else bad
+    | none => bad
   | [op, s, a] =>
     match s.toNat?, a.toNat? with
     | some s, some a =>
-      if s < nsets && a < npop then
+      if s < nsets && a < npop && !st.dead.contains a then
         if op = "add" then let st' := add st s a; (st', okS st' "added")
         else if op = "discard" then let st' := discard st s a; (st', okS st' "discarded")
         else if op = "remove" then
@@ -396,6 +509,11 @@ def asetLine (st : Store) (ws : List String) : Store × String :=
           | .ok st' => (st', okS st' "removed")
           | .error e => (st, fmtErr e)
         else if op = "contains" then (st, okS st s!"in={if contains st s a then 1 else 0}")
+        else if op = "count" then (st, okS st s!"count={count st s a}")
+        else if op = "index" then
+          match index st s a 0 none with
+          | .ok i => (st, okS st s!"index={i}")
+          | .error e => (st, fmtErr e)
         else bad
       else bad
     | _, _ => bad
